@@ -42,6 +42,8 @@ class Check(PropCheck):
             n = rng.randint(2, 25 if self.tier == 'quick' else 80)
             t = gen.rand_tree(rng, n, 'none', p_multi=rng.choice([0, 0.3, 0.6]), p_unary=rng.choice([0, 0.2]))
             ops = [gen.parse_op(gen.to_newick(t))] if rng.random() < 0.7 else ['new'] + gen.build_ops(t)
+            if rng.random() < 0.3:
+                ops += ['dm']
             ops += edit_prefix(rng, rng.randint(0, 6))
             trees.append((ops, len(t.nodes()) + 8))
         self.stats['trees'] = len(trees)
